@@ -1449,20 +1449,27 @@ def xref_chain_table(repo, run, rule):
     bad = []
     rows = 0
     for n in (1, 2, 3):
-        for end in ('node', 'missing', 'cycle'):
+        for end in ('node', 'null', 'missing', 'cycle'):
             xs = [node_obj('x%d' % i, 'XRefNode') for i in range(1, n + 1)]
             tgt = node_obj('target', 'ConfigScalar')
             nxt = {}
             for i, x in enumerate(xs):
-                nxt[x.name] = xs[i + 1] if i + 1 < n else (tgt if end == 'node' else (None if end == 'missing' else xs[0]))
+                if i + 1 < n:
+                    nxt[x.name] = xs[i + 1]
+                elif end != 'missing':
+                    nxt[x.name] = {'node': tgt, 'null': None, 'cycle': xs[0]}[end]     # 'null': the target was evaluated already, to None
             log = []
 
             def stub(name, recv, args, kwargs, log=log, nxt=nxt):
                 if name == 'get_node':
                     a = args[0] if args else None
                     log.append(('get', getattr(a, 'name', a)))
-                    r_ = nxt.get(getattr(a, 'name', None))
-                    if r_ is None:
+                    r_ = nxt.get(getattr(a, 'name', None), 'MISSING')
+                    if r_ == 'MISSING':
+                        # the lookup protocol of get_node: KeyError unless incomplete is given (None / true: the missing node is None)
+                        inc = kwargs.get('incomplete', False)
+                        if inc is None or inc:
+                            return None
                         raise Raised('KeyError')
                     return r_
                 if name == 'evaluate_node':
@@ -1474,16 +1481,17 @@ def xref_chain_table(repo, run, rule):
             f = FDE(repo, stubs={'get_node', 'evaluate_node', 'get_str_path'}, stub=stub)
             r = fde_guard(lambda: f.call(fi, xs[0], ['the', 'path'], Obj('ctx', 'EvalContext')))
             rows += 1
-            what = 'a chain of %d reference(s) ending in %s' % (n, {'node': 'a plain node', 'missing': 'a missing path', 'cycle': 'its first reference again'}[end])
+            what = 'a chain of %d reference(s) ending in %s' % (n, {'node': 'a plain node', 'null': 'a path already evaluated to None', 'missing': 'a missing path', 'cycle': 'its first reference again'}[end])
             gets = [x[1] for x in log if x[0] == 'get']
             evs = [x for x in log if x[0] == 'eval']
-            if end == 'node':
+            if end in ('node', 'null'):
+                want_t = 'target' if end == 'node' else None
                 if r.raised:
                     bad.append('%s raises %s' % (what, r.raised))
                 elif gets != [x.name for x in xs]:
                     bad.append('%s: looked up %s, expected every reference of the chain once (%s)' % (what, gets, [x.name for x in xs]))
-                elif len(evs) != 1 or evs[0][1] != 'target':
-                    bad.append('%s: evaluates %s, expected the node the chain ends in' % (what, [e[1] for e in evs]))
+                elif len(evs) != 1 or evs[0][1] != want_t:
+                    bad.append('%s: evaluates %s, expected what the chain ends in' % (what, [e[1] for e in evs]))
                 elif 'x%d' % n not in evs[0][2]:
                     bad.append('%s: the target is evaluated under the name %s, expected the text of the last reference (x%d)' % (what, evs[0][2], n))
                 elif r.ret != 'VALUE':
@@ -1491,7 +1499,7 @@ def xref_chain_table(repo, run, rule):
             else:
                 if r.raised != 'ValueError':
                     bad.append('%s: %s, expected ValueError' % (what, 'raises ' + r.raised if r.raised else 'evaluates to %r' % (r.ret,)))
-    run.table(rule, rows, 'reference chains of length 1..3 x (plain node / missing / cycle)')
+    run.table(rule, rows, 'reference chains of length 1..3 x (plain node / evaluated null / missing / cycle)')
     if bad:
         run.violation(rule, fi, 'reference chain table', bad[0] + (' [%d rows]' % len(bad) if len(bad) > 1 else ''), witness=bad[:4])
     else:
@@ -1618,6 +1626,56 @@ def add_source_table(repo, run, rule):
         run.violation(rule, fi, 'source interpretation table', bad[0] + (' [%d rows]' % len(bad) if len(bad) > 1 else ''), witness=bad[:4])
     else:
         run.ok(rule, fi, 'source interpretation (%d rows)' % rows, 'raw text never opened; missing file: error for raw_yaml=False, fallback for None; other OS errors propagate')
+
+
+def list_merge_keys_table(repo, run, rule):
+    """ConfigList.on_merge_impl evaluated for a mapping merged onto a list of length 0 / 1 / 3, over key sets: the merge goes on to the
+    key-wise container merge exactly when every key addresses an existing element (-len <= key < len); any other key - including
+    key 0 of an empty list - is a MergeError and nothing is merged"""
+    from ..fde import NodeInt
+    fi = repo.func('ConfigList.ayns.on_merge_impl')
+    bad = []
+    rows = 0
+    for L in (0, 1, 3):
+        keysets = [[0], [0, 1], [L], [-1], [-L], [-L - 1], [0, L], [L + 2], [1, 0], []]
+        if L:
+            keysets += [[L - 1], [L - 1, L], [-L, L - 1]]
+        for keys in keysets:
+            me = node_obj('lst', 'ConfigList', _children={i: node_obj('e%d' % i) for i in range(L)})
+            other = node_obj('other', 'ConfigDict', _children={})
+            knodes = [NodeInt(k) for k in keys]
+            log = []
+
+            def stub(name, recv, a, k, log=log, knodes=knodes):
+                if name == 'children_names':
+                    return list(knodes)
+                if name == 'names':
+                    return list(knodes)
+                if name in ('filter_nodes',):
+                    log.append(name)
+                    return None
+                if name == 'on_merge_impl':
+                    log.append('merge')
+                    return 'MERGED'
+                raise Unsupported('call of ' + name)
+            f = FDE(repo, stubs={'children_names', 'filter_nodes', 'on_merge_impl'}, stub=stub)
+            r = fde_guard(lambda: f.call(fi, me, ['p'], other))
+            rows += 1
+            valid = all(-L <= k < L for k in keys)
+            what = 'a mapping with the keys %s merged onto a list of %d element(s)' % (keys, L)
+            if valid:
+                if r.raised or 'merge' not in log:
+                    bad.append('%s: %s, expected the key-wise merge' % (what, 'raises ' + r.raised if r.raised else 'does not reach the container merge'))
+            elif r.raised != 'MergeError':
+                off = [k for k in keys if not -L <= k < L]
+                bad.append('%s: %s, expected MergeError (key %d addresses no existing element)' % (what, 'raises ' + r.raised if r.raised else 'goes on to the key-wise merge, where the value is appended as a new element', off[0]))
+            elif 'merge' in log:
+                bad.append('%s: merged before the MergeError' % what)
+    run.table(rule, rows, 'mapping keys x list length')
+    if bad:
+        run.violation(rule, fi, 'mapping-onto-list key table', bad[0] + (' [%d rows]' % len(bad) if len(bad) > 1 else ''), witness=bad[:4])
+    else:
+        run.ok(rule, fi, 'mapping-onto-list keys (%d rows)' % rows, 'exactly the keys -len..len-1 are accepted')
 
 
 def tag_spec(repo, run, rule, tags):
